@@ -286,6 +286,22 @@ theorem slice_sub {rows : List (Row Dat)} (k : Key) :
   obtain ⟨r, hr, rfl⟩ := List.mem_map.mp hd
   exact ⟨r, (mem_rowsOf.mp hr).1, rfl⟩
 
+/-- `applyAgg` reads the LIFTED result cache (`Generated/PopulateSrc.lean`: default `errors=` / `method=` of the public
+    accessors, the slot they read, the call `_populate_results` stored there, the lifted `_extract_result`); for a
+    bare-callable frame without control features it is the hard-coded call `applyAggModel` -/
+theorem applyAgg_lifted_eq (k : AggKind) (meth : Method) (withMethod : Bool) (t : Tables) (h : t.ncf = 0) :
+    applyAgg k meth withMethod t = applyAggModel k meth withMethod t := by
+  -- proved from the slots THIS property uses only (default arguments; the errors='raise' slots of difference / ratio and
+  -- the errors='coerce' slots of group_min / group_max are the business of C02.src_populate_eq_model)
+  unfold applyAgg applyAggGot applyAggModel
+  cases k <;> cases withMethod <;> cases meth <;>
+    simp [AggCache.groupMinPub, AggCache.groupMaxPub, AggCache.differencePub, AggCache.ratioPub, AggCache.cached,
+      AggCache.entryOf, AggCache.evalCall, AggCache.extractFails, PopulateSrc.populate, PopulateSrc.validErrors,
+      PopulateSrc.compareMethods, PopulateSrc.groupMinDefaultErrors, PopulateSrc.groupMaxDefaultErrors,
+      PopulateSrc.differenceDefaultMethod, PopulateSrc.differenceDefaultErrors, PopulateSrc.ratioDefaultMethod,
+      PopulateSrc.ratioDefaultErrors, PopulateSrc.groupMinSlot, PopulateSrc.groupMaxSlot, PopulateSrc.differenceSlot,
+      PopulateSrc.ratioSlot, FrameSrc.extract_result, h, groupMin, groupMax]
+
 section oneStratum
 variable {f : List Dat → Cell} {g : List Dat → Rat} {nsf : Nat} {rows : List (Row Dat)}
 
@@ -441,7 +457,7 @@ theorem applyAgg_one (hn : 0 < nsf) (hwf : WF 0 nsf rows) (hf : FiniteOn f g row
   have hs := strata_one (f := f) hn hwf hne
   have hns := hasNonscalar_one hn hf hne
   cases k <;> cases m <;>
-    simp [applyAgg, perStratum, difference, ratio, groupMin, groupMax, applyGrouping, hs, hns,
+    simp [applyAgg_lifted_eq _ _ _ _ (rfl : (ofFrame 0 nsf f rows).ncf = 0), applyAggModel, perStratum, difference, ratio, groupMin, groupMax, applyGrouping, hs, hns,
       AggregateSpec.diffBetweenSubtrahend, AggregateSpec.ratioBetweenNum, AggregateSpec.ratioBetweenDen,
       Grouping.apply]
 
